@@ -3,7 +3,7 @@ from ..cfg import cfg_of
 from ..defuse import du_of, walk, peel, callee_name, fmt
 from ..conds import lits_of
 from ..callgraph import cg_of
-from ..common import arg_term, contains_call, call_named, ADAPTER_TRAIT, assigns_of_return
+from ..common import arg_term, contains_call, call_named, ADAPTER_TRAIT, assigns_of_return, root_fn
 from ..roles import roles_of
 from ..backends import backends, classify_effect, sql_literals, absence_lits, key_derived, METHODS
 
@@ -442,12 +442,52 @@ def check_ranged_read(b, facts, res):
     body = b.methods.get("read_object")
     if body is None:
         return
-    members = [body] + facts.closures_of(body.path)
+    # the offset / length parameters by position (read_object(&self, key, offset, length)), followed into the crate's own
+    # helper functions (`select_range(data, offset, length)`) and into closures (captured by name)
+    base = [(body, {"offset": {3}, "length": {4}})]
+    seen_h = {body.path}
+    work = list(base)
+    while work:
+        m0, r0 = work.pop()
+        du0 = du_of(m0)
+        for bi, t in m0.calls():
+            hb = facts.body(t.callee.target()) if t.callee is not None else None
+            if hb is None or not hb.in_repo() or hb.kind == "closure" or hb.path in seen_h or hb.impl_trait == ADAPTER_TRAIT or len(seen_h) > 6:
+                continue
+            hr = {"offset": set(), "length": set()}
+            for i, a in enumerate(t.args):
+                at = du0.operand_term(a, 10)
+                for x in walk(at):
+                    if x[0] == "param":
+                        for rn in ("offset", "length"):
+                            if x[1] in r0[rn]:
+                                hr[rn].add(i + 1)
+            if hr["offset"] or hr["length"]:
+                seen_h.add(hb.path)
+                base.append((hb, hr))
+                work.append((hb, hr))
+    members_r = []
+    for m0, r0 in base:
+        members_r.append((m0, r0))
+        for cb in facts.closures_of(m0.path):
+            members_r.append((cb, r0))
+    members = [m for m, _ in members_r]
+
+    def roles_in(t_, m, r):
+        out = set()
+        rf = root_fn(m)
+        for x in walk(t_):
+            for rn in ("offset", "length"):
+                if x[0] == "param" and m.kind != "closure" and x[1] in r[rn]:
+                    out.add(rn)
+                if x[0] == "upvar" and m.kind == "closure" and any(i <= rf.argc and rf.local_name(i) == x[2] for i in r[rn]):
+                    out.add(rn)
+        return out
     found_len0 = False
     found_off0 = False
     found_sum = False
     found_start = False
-    for m in members:
+    for m, r in members_r:
         du = du_of(m)
         for blk in m.blocks:
             if blk.cleanup:
@@ -459,8 +499,8 @@ def check_ranged_read(b, facts, res):
                 if rv.kind == "binop":
                     a, c = rv.operands()
                     ta, tc = du.operand_term(a, 8), du.operand_term(c, 8)
-                    names_a = {x[2] for x in walk(ta) if x[0] in ("param", "upvar")}
-                    names_c = {x[2] for x in walk(tc) if x[0] in ("param", "upvar")}
+                    names_a = roles_in(ta, m, r)
+                    names_c = roles_in(tc, m, r)
                     if rv.j["op"] in ("Eq", "Ne"):
                         for nm, ot in ((names_a, c), (names_c, a)):
                             if ot.is_const() and ot.const_int() == 0:
@@ -475,16 +515,16 @@ def check_ranged_read(b, facts, res):
                     ops = rv.operands()
                     if ops:
                         t0 = du.operand_term(ops[0], 8)
-                        if any(x[0] in ("param", "upvar") and x[2] == "offset" for x in walk(t0)):
+                        if "offset" in roles_in(t0, m, r):
                             found_start = True
                 if rv.kind == "agg" and rv.j.get("variant") == "Start":
                     ops = rv.operands()
-                    if ops and any(x[0] in ("param", "upvar") and x[2] == "offset" for x in walk(du.operand_term(ops[0], 10))):
+                    if ops and "offset" in roles_in(du.operand_term(ops[0], 10), m, r):
                         found_start = True
         for bi, t in m.calls():
             # vec![0; length] + read_exact: the length parameter sizes the buffer
             if t.callee is not None and t.callee.name in ("from_elem",) and len(t.args) >= 2:
-                if any(x[0] in ("param", "upvar") and x[2] == "length" for x in walk(du.operand_term(t.args[1], 8))):
+                if "length" in roles_in(du.operand_term(t.args[1], 8), m, r):
                     found_sum = found_sum or found_start or True
     # S4b: no short reads: `Read::read` returns after an arbitrary number of bytes; only read_exact / read_to_end deliver
     # the requested range
@@ -497,6 +537,7 @@ def check_ranged_read(b, facts, res):
                               "a ranged read of a large value would come back partly zero-filled" % b.name(), m.loc(t.line))
     # S4c: an explicit bounds test refuses a slice only when it really exceeds the value: offset + length == len is in range
     from ..common import assigns_of_return as _aor
+    members_r_map = [(m_.path, r_) for m_, r_ in members_r]
     for m in members:
         for ob, st in _aor(m, "Err"):
             for l in lits_of(m, ob, facts):
@@ -504,8 +545,8 @@ def check_ranged_read(b, facts, res):
                     continue
                 op, a_, c_ = l.term[1], l.term[2], l.term[3]
 
-                def is_end(t_):
-                    nm = {x[2] for x in walk(t_) if x[0] in ("param", "upvar")}
+                def is_end(t_, _m=m):
+                    nm = roles_in(t_, _m, dict(members_r_map).get(_m.path, {"offset": set(), "length": set()}))
                     return "offset" in nm and "length" in nm
                 def is_len(t_):
                     return any(x[0] == "call" and callee_name(x) == "len" for x in walk(t_))
